@@ -100,7 +100,7 @@ def one(case, ch):
         err = e
     committed = [c for c in srv.commits]
     return dict(err=err, payload=payload, commits=committed, stored=srv.store.get(MUX), viol=list(srv.violations),
-                drops=state["drops"], nseg=state["seg"], frames=link.client_frames, completed=list(srv.completed))
+                drops=state["drops"], nseg=state["seg"], timeouts=simenv.W.timeouts, frames=link.client_frames, completed=list(srv.completed))
 
 
 def must_repair(case, drops):
@@ -143,6 +143,9 @@ def run_case(case, st):
             for code, fr, txt in r["viol"][:1]:
                 st.violation(f"C12:frame:{code}:drops{len(drops)}:{tag}", rc, "legal CiA 301 block download frames",
                              f"{fr}: {txt} drops={drops}")
+            if not drops and r["timeouts"]:
+                st.violation(f"C12:undisturbed:client-timed-out:{tag}", rc, "no time-out in an undisturbed transfer",
+                             f"{r['timeouts']} virtual time-outs")
             if "blk-dl" not in r["completed"]:
                 st.violation(f"C12:not-closed:drops{len(drops)}:{tag}", rc, "end of block download confirmed", r["completed"])
         else:
